@@ -57,6 +57,8 @@ def run(ctx):
     n = B.analyse_setters(ctx, F, ba, non_tag_fields=("arch",))
     ctx.floor("SETTER", "setters of multiboot2_header::Builder", n, 10)
     bn = F.find(impl_self_path=ba["path"], name="new", impl_trait=None)
+    if len(bn) != 1:
+        ctx.fail("ANCHOR", "Builder::new", "the header builder's constructor exists (one instance)", ba.get("span", ""), "%d found" % len(bn))
     if len(bn) == 1:
         rt, _ = an.of(F, bn[0]).ret()
         n_ = N(rt) if rt is not None else None
